@@ -192,3 +192,59 @@ def run_r3_first(ck: Check, repo: Repo) -> None:
 def run_r3(ck: Check, repo: Repo) -> None:
     _schedule_counter(ck, repo)
     _batch_reads_intact(ck, repo)
+    _wrapper_transforms_every_batch(ck, repo)
+
+
+# ------------------------------------------------------------------------------------------------ C08.12
+def _wrapper_transforms_every_batch(ck: Check, repo: Repo) -> None:
+    """An agent wrapper that transforms the observations of the batch it hands to the wrapped learn() (RSNorm normalises them) must transform EVERY
+    batch that learn() receives: RainbowDQN.learn also takes the n-step batch as `n_experiences`; left untransformed, the n-step term of the loss
+    evaluates online and target network on raw observations while the 1-step term (and acting) use normalised ones."""
+    ck.rule("C08.12", "one batch, one preparation: an agent wrapper that transforms the observations of `experiences` before the wrapped learn() applies the same "
+                      "transformation to every further batch argument of learn() (`n_experiences` of the n-step learners)")
+    # further batch parameters of the learners: parameters of a learn() method, other than the first, whose name says experiences
+    extra: Set[str] = set()
+    for mod in repo.mods.values():
+        if not mod.name.startswith("agilerl.algorithms"):
+            continue
+        for cls in mod.classes.values():
+            fn = cls.methods.get("learn")
+            if fn is not None:
+                ps = [p for p in fn.params if p != "self"]
+                extra |= {p for p in ps[1:] if p.endswith("experiences")}
+    ck.floor("C08.12", len(extra), 1, "further batch parameters of learn() methods")
+    wmod = repo.mod("agilerl.wrappers.agent")
+    n = 0
+    for cls in wmod.classes.values():
+        fn = cls.methods.get("learn")
+        if fn is None:
+            continue
+        norm = [c for c in calls_in(fn.node) if isinstance(c.func, ast.Attribute) and "normalize" in c.func.attr]
+        if not norm:
+            continue  # this wrapper's learn does not transform observations
+        n += 1
+        for p in sorted(extra):
+            # the batch is taken out of the keyword arguments (kwargs["p"], kwargs.get("p"), an explicit parameter p) and its obs / next_obs are normalised
+            def reads(e: ast.AST) -> bool:
+                for x in ast.walk(e):
+                    if isinstance(x, ast.Subscript) and const_value(x.slice) == p:
+                        return True
+                    if isinstance(x, ast.Call) and isinstance(x.func, ast.Attribute) and x.func.attr in ("get", "pop") and x.args and const_value(x.args[0]) == p:
+                        return True
+                    if isinstance(x, ast.Name) and x.id == p and p in fn.params:
+                        return True
+                return False
+            holders: Set[str] = set()
+            for s in walk_no_nested(fn.node):
+                if isinstance(s, ast.Assign) and len(s.targets) == 1 and isinstance(s.targets[0], ast.Name) and reads(s.value):
+                    holders.add(s.targets[0].id)
+            keys = set()
+            for c in norm:
+                for a in c.args:
+                    if isinstance(a, ast.Subscript) and isinstance(const_value(a.slice), str) and (reads(a.value) or (isinstance(a.value, ast.Name) and a.value.id in holders)):
+                        keys.add(const_value(a.slice))
+            ok = {"obs", "next_obs"} <= keys
+            ck.ob("C08.12", fn, fn.node, ok, f"{cls.name}.learn transforms the observations of `{p}` like those of the first batch",
+                  detail="" if ok else f"`{p}` reaches the wrapped learn() as it was passed in (normalised fields of it: {sorted(keys)}): the n-step loss is computed on raw observations",
+                  construct=f"{cls.name}.learn: preparation of {p}")
+    ck.floor("C08.12", n, 1, "agent wrappers whose learn() transforms observations")
